@@ -474,4 +474,75 @@ theorem eventsTree_attrs (isDt : Str → Bool) (host : QN) (attrs : List (QN × 
     simp [WState.step, WState.flush, bind, Except.bind, pure, Except.pure]
   exact eventsTree_of isDt _ _ _ hu hs (by simp [saxTree])
 
+/-! ### `eventsTreeQ` (prefixes for `is_xsi_type` strings) agrees with `eventsTree` on `treeOK` content -/
+
+theorem attrEv_urisQ (isDt : Str → Bool) (a : List (QN × Str)) (hp : ∀ kv ∈ a, plainAttr isDt kv = true) :
+    ((a.map attrEv).map (evUrisQ isDt)).flatten = [] := by
+  induction a with
+  | nil => simp
+  | cons kv r ih =>
+    have h1 := hp kv (by simp)
+    have hc : ¬ (kv.2.head? = some '{' ∧ (kv.1 = xsiType ∨ isDt kv.2 = true)) := by
+      simp [plainAttr] at h1
+      intro ⟨x1, x2⟩
+      rcases h1 with h1 | h1
+      · exact h1 x1
+      · rcases x2 with x2 | x2
+        · exact h1.1 x2
+        · simp [h1.2] at x2
+    have ih' := ih (fun x hx => hp x (by simp [hx]))
+    simp only [List.map_cons, List.flatten_cons, ih', List.append_nil]
+    simp [attrEv, evUrisQ, hc]
+
+theorem tailEv_urisQ (isDt : Str → Bool) (t : Option Str) : ((tailEv t).map (evUrisQ isDt)).flatten = [] := by
+  cases t with
+  | none => simp [tailEv]
+  | some s => by_cases h : s = [] <;> simp [tailEv, h, evUrisQ, dataUris]
+
+mutual
+theorem treeEv_urisQ (e : Env) (nil : Bool) (isDt : Str → Bool) :
+    ∀ t : Tree, treeOK isDt t = true → ((treeEv e nil t).map (evUrisQ isDt)).flatten = []
+  | .node q a n tx c tl, hok => by
+    obtain ⟨_, hd, hst, _, hpl, hc⟩ := treeOK_node hok
+    have ih := forestEv_urisQ e nil isDt c hc
+    have ha := parseAnyAttributes_ok a n hd hst
+    simp only [treeEv, ha, List.map_append, List.flatten_append, attrEv_urisQ isDt a hpl, ih, tailEv_urisQ,
+      List.map_cons, List.map_nil, List.flatten_cons, List.flatten_nil, evUrisQ, textData_uris, List.append_nil]
+theorem forestEv_urisQ (e : Env) (nil : Bool) (isDt : Str → Bool) :
+    ∀ ts : List Tree, treeOKList isDt ts = true → ((forestEv e nil ts).map (evUrisQ isDt)).flatten = []
+  | [], _ => by simp [forestEv]
+  | t :: ts, hok => by
+    simp [treeOKList] at hok
+    have h1 := treeEv_urisQ e nil isDt t hok.1
+    have h2 := forestEv_urisQ e nil isDt ts hok.2
+    simp [forestEv, h1, h2]
+end
+
+theorem eventsTreeQ_eq (isDt : Str → Bool) (evs : List Ev) (h1 : collectUris evs = [])
+    (h2 : ((evs.map (evUrisQ isDt)).flatten) = []) : eventsTreeQ isDt evs = eventsTree isDt evs := by
+  have h3 : collectUrisQ isDt evs = [] := by simp [collectUrisQ, h2]
+  simp only [eventsTreeQ, eventsTree, h1, h3]
+  cases eventsSax (prefixMap []) isDt evs with
+  | error err => rfl
+  | ok sax =>
+    simp only [bind, Except.bind]
+    cases saxTree (prefixMap []) sax [] none <;> rfl
+
+/-- `any_roundtrip` for the writer with the requested repair of `collectUris` -/
+theorem wildRoundtrip1Q_eq (e : BEnv) (Γ : Ctx) (cfg : ParserConfig) (isDt : Str → Bool) (var : XmlVar)
+    (t : Tree) (hw : var.isWildcard = true) (hok : treeOK isDt t = true)
+    (htl : rootTailBlank e.py t = true) :
+    (do let v ← wildValue e Γ cfg var t
+        let evs ← genAnyType e Γ {} (depthTree t + 1) v var none
+        eventsTreeQ isDt evs) = .ok (normTree e.py [] t) := by
+  have h0 := wildRoundtrip1_eq e Γ cfg isDt var t hw hok htl
+  have h1 := wildValue_eq e Γ cfg var hw t
+  have h2 := genAnyType_anyOf e Γ {} var var.nillable t (depthTree t + 1) none
+    (treeOK_names isDt t hok) (by omega)
+  have hu : collectUris (treeEv e.py var.nillable t) = [] := by
+    rw [collectUris_eq, treeEv_uris]; rfl
+  have hq := eventsTreeQ_eq isDt _ hu (treeEv_urisQ e.py var.nillable isDt t hok)
+  simp only [wildRoundtrip1, h1, h2, bind, Except.bind] at h0 ⊢
+  rw [hq]; exact h0
+
 end Proofs.C11
